@@ -109,6 +109,12 @@ func computeResident(pkgs []*packages.Package) *procState {
 		}
 		sc := p.Types.Scope()
 		for _, name := range sc.Names() {
+			if gv, ok := sc.Lookup(name).(*types.Var); ok {
+				// a module struct held in a package-level variable lives as long as the process
+				gn, _ := namedStruct(gv.Type())
+				addT(gn)
+				continue
+			}
 			tn, ok := sc.Lookup(name).(*types.TypeName)
 			if !ok {
 				continue
@@ -148,6 +154,79 @@ func computeResident(pkgs []*packages.Package) *procState {
 		}
 	}
 	return ps
+}
+
+// mutableType: can a value of this type carry state that changes without the variable being reassigned?
+func mutableType(t types.Type, depth int) bool {
+	if t == nil || depth > 4 {
+		return false
+	}
+	if n, ok := t.(*types.Named); ok && n.Obj().Pkg() != nil {
+		switch n.Obj().Pkg().Path() {
+		case "sync", "sync/atomic":
+			return true
+		}
+	}
+	switch u := t.Underlying().(type) {
+	case *types.Map, *types.Chan, *types.Pointer, *types.Slice, *types.Signature:
+		return true
+	case *types.Interface:
+		return true
+	case *types.Struct:
+		for i := 0; i < u.NumFields(); i++ {
+			if mutableType(u.Field(i).Type(), depth+1) {
+				return true
+			}
+		}
+	case *types.Array:
+		return mutableType(u.Elem(), depth+1)
+	}
+	return false
+}
+
+// errorSentinel: `var ErrX = sdkerrors.Register(…)` / errors.New(…): immutable by construction (no exported mutator)
+func errorSentinel(t types.Type) bool {
+	s := t.String()
+	return s == "error" || s == "*github.com/cosmos/cosmos-sdk/types/errors.Error" || s == "*errors.errorString"
+}
+
+// holders inventories every package-level variable of mutable type declared in this file (kind process-state-holder):
+// a new one is a finding even before anyone finds the write.
+func (c *collector) holders(f *ast.File) {
+	for _, d := range f.Decls {
+		g, ok := d.(*ast.GenDecl)
+		if !ok || g.Tok != token.VAR {
+			continue
+		}
+		for _, sp := range g.Specs {
+			vs, ok := sp.(*ast.ValueSpec)
+			if !ok {
+				continue
+			}
+			for i, id := range vs.Names {
+				if id.Name == "_" {
+					continue
+				}
+				v, ok := c.info.Defs[id].(*types.Var)
+				if !ok || errorSentinel(v.Type()) || !mutableType(v.Type(), 0) {
+					continue
+				}
+				init := ""
+				if i < len(vs.Values) {
+					if call, ok := vs.Values[i].(*ast.CallExpr); ok {
+						init = " = " + c.src(call.Fun) + "(…)"
+					} else if cl, ok := vs.Values[i].(*ast.CompositeLit); ok && cl.Type != nil {
+						init = " = " + c.src(cl.Type) + "{…}"
+					}
+				} else if len(vs.Values) == 1 && len(vs.Names) > 1 {
+					if call, ok := vs.Values[0].(*ast.CallExpr); ok {
+						init = " = " + c.src(call.Fun) + "(…)"
+					}
+				}
+				c.addAt("<pkginit>", "process-state-holder", "var "+id.Name+" "+types.TypeString(v.Type(), func(p *types.Package) string { return p.Name() })+init, id.Pos())
+			}
+		}
+	}
 }
 
 func isCtx(t types.Type) bool {
@@ -351,8 +430,11 @@ func (c *collector) procWrites(fn string, body ast.Node) {
 					}
 				}
 			}
-			// mutating method on a field / global whose type lives outside the module, no context argument
-			if sel, ok := x.Fun.(*ast.SelectorExpr); ok && mutatingMethod[sel.Sel.Name] {
+			// ANY method call on a package-level variable / resident-struct field whose type comes from outside the module
+			// (pointer, interface, map, chan, sync.*, struct with internal state) is a potential write of process-local state —
+			// a cache `Add`, a pool `Put`, a registry `Register…` — unless the method is provably read-only (readOnlyMethod)
+			// or takes an sdk.Context / context.Context (context-scoped effects go to the block's store).
+			if sel, ok := x.Fun.(*ast.SelectorExpr); ok {
 				if s, ok2 := c.info.Selections[sel]; ok2 && s.Kind() == types.MethodVal {
 					for _, a := range x.Args {
 						if isCtx(c.info.TypeOf(a)) {
@@ -360,8 +442,14 @@ func (c *collector) procWrites(fn string, body ast.Node) {
 						}
 					}
 					recvT := c.info.TypeOf(sel.X)
-					if n, _ := namedOf(recvT); n != nil && inModule(n.Obj().Pkg()) {
-						return true // module-defined receiver: its own body is inventoried
+					n, _ := namedOf(recvT)
+					if n != nil && inModule(n.Obj().Pkg()) {
+						if _, isIface := n.Underlying().(*types.Interface); !isIface {
+							return true // module-defined concrete receiver: resident if held in a field / global, its own body is inventoried
+						}
+					}
+					if readOnlyMethod(n, recvT, sel.Sel.Name) {
+						return true
 					}
 					if owner, field, _, ok3 := c.fieldOf(sel.X); ok3 {
 						c.addAt(fn, "process-state", "("+owner+")."+field+" method:"+sel.Sel.Name, x.Pos())
@@ -373,6 +461,39 @@ func (c *collector) procWrites(fn string, body ast.Node) {
 		}
 		return true
 	})
+}
+
+// methods that cannot change their receiver, by name (value-like types: addresses, hashes, big numbers' readers, errors …)
+var readOnlyName = map[string]bool{"String": true, "Error": true, "GoString": true, "Name": true, "Len": true, "Cap": true, "Bytes": true, "Hex": true,
+	"Equal": true, "Equals": true, "Cmp": true, "Sign": true, "IsNil": true, "IsZero": true, "Empty": true, "Unwrap": true, "Is": true, "Uint64": true, "Int64": true,
+	"BigInt": true, "IsInt64": true, "IsUint64": true, "Hash": true, "Big": true, "Format": true, "MarshalJSON": true, "Marshal": true, "Size": true}
+
+// read-only methods of specific dependency types whose instances are immutable once constructed / sealed
+var readOnlyTyped = map[string]*regexp.Regexp{
+	// codecs: (un)marshalling does not change the codec; Register… / Seal do
+	"github.com/cosmos/cosmos-sdk/codec":       regexp.MustCompile(`^(Must)?(Marshal|Unmarshal|UnpackAny|InterfaceRegistry|GetMsgV1Signers|MarshalInterface|UnmarshalInterface|MarshalJSON|UnmarshalJSON|MarshalLengthPrefixed|UnmarshalLengthPrefixed|MarshalInterfaceJSON|UnmarshalInterfaceJSON|MarshalBinaryBare|UnmarshalBinaryBare)`),
+	"github.com/cosmos/cosmos-sdk/codec/types": regexp.MustCompile(`^(UnpackAny|Resolve|ListAllInterfaces|ListImplementations)$`),
+	// a parsed ABI is a table: packing / unpacking / lookups read it
+	"github.com/ethereum/go-ethereum/accounts/abi": regexp.MustCompile(`^(Pack|Unpack|UnpackIntoInterface|UnpackIntoMap|MethodById|EventByID|PackValues|UnpackValues|NonIndexed|Copy)$`),
+	// store keys, message routers: lookups
+	"github.com/cosmos/cosmos-sdk/store/types": regexp.MustCompile(`^(Name|String)$`),
+	"github.com/cosmos/cosmos-sdk/baseapp":     regexp.MustCompile(`^(Handler|HandlerByTypeURL|LastBlockHeight|LastCommitID|Logger|Name|Version)$`),
+	"github.com/cosmos/cosmos-sdk/x/params/types": regexp.MustCompile(`^(HasKeyTable|Name)$`),
+	"github.com/cosmos/cosmos-sdk/types/module": regexp.MustCompile(`^(GetVersionMap)$`),
+	"time":                                     regexp.MustCompile(`^([A-TV-Z]|U[^n])`), // every method of time.Time / Duration except Unmarshal…
+	"math/big":                                 regexp.MustCompile(`^(Cmp|CmpAbs|Sign|Bytes|String|Text|Uint64|Int64|IsInt64|IsUint64|BitLen|Bit|FillBytes|Append|Format|ProbablyPrime)$`),
+}
+
+func readOnlyMethod(n *types.Named, recvT types.Type, name string) bool {
+	if readOnlyName[name] {
+		return true
+	}
+	if n != nil && n.Obj().Pkg() != nil {
+		if re, ok := readOnlyTyped[n.Obj().Pkg().Path()]; ok && re.MatchString(name) {
+			return true
+		}
+	}
+	return false
 }
 
 func namedOf(t types.Type) (*types.Named, bool) {
